@@ -47,3 +47,10 @@ Print Assumptions C03_apply_total.
 Print Assumptions C03_rights_lost_exactly.
 Print Assumptions C03_double_step_sets_ep_target.
 Print Assumptions C03_castle_moves_matching_rook.
+
+(* the model constants equal the ones translated from the source on this run *)
+From ChessV Require ConstsTie.
+Check ConstsTie.rights_masks_tie.
+Check ConstsTie.promotions_tie.
+Check ConstsTie.search_key_arity_tie.
+Check ConstsTie.clock_key_threshold_tie.
